@@ -116,8 +116,12 @@ func classify(ev *crashfs.Event, prev *crashfs.Event) string {
 		switch {
 		case ev.Off == 512 && n == 4:
 			return "meta-hs-len"
+		case ev.Off == 512:
+			return "meta-hs-rec" // [len][bytes] in one write
 		case ev.Off == 516:
 			return "meta-hs-data"
+		case ev.Off == 1024 && n > 8:
+			return "meta-snap-rec" // [index][term][len][bytes] in one write
 		case ev.Off == 1024:
 			return "meta-snapindex"
 		case ev.Off == 1032:
@@ -168,9 +172,9 @@ func faultOf(class string) (kind string, rot bool) {
 		return "entry", true
 	case "truncate", "sync", "create", "newfile-zeros":
 		return "entry", false
-	case "meta-hs-len", "meta-hs-data":
+	case "meta-hs-len", "meta-hs-data", "meta-hs-rec":
 		return "hs", false
-	case "meta-snap-len", "meta-snap-data":
+	case "meta-snap-len", "meta-snap-data", "meta-snap-rec":
 		return "snap", false
 	}
 	return "", false
@@ -185,6 +189,7 @@ type saveCtx struct {
 	newHS    raftpb.HardState
 	oldSnap  *SnapD
 	newSnap  *SnapD
+	delUpTo  uint64 // DeleteBefore(i) in progress: the first index may move up to i
 }
 
 type storeView struct {
@@ -239,7 +244,7 @@ func checkInside(v storeView, c *saveCtx) (string, string) {
 	if v.first < c.oldFirst {
 		return "first", fmt.Sprintf("first index %d below %d", v.first, c.oldFirst)
 	}
-	if v.first > c.oldFirst && v.first > v.snapUint+1 {
+	if v.first > c.oldFirst && v.first > v.snapUint+1 && v.first > c.delUpTo {
 		return "first", fmt.Sprintf("first index moved %d -> %d beyond the snapshot index %d", c.oldFirst, v.first, v.snapUint)
 	}
 	oldAt := func(i uint64) (raftpb.Entry, bool) {
@@ -374,7 +379,7 @@ func (w *world) crashSave(op *Op, hs *raftpb.HardState, es []raftpb.Entry, sn *r
 	var images []image
 	var prev *crashfs.Event
 	classes := []string{}
-	plain, stride := 0, 1+3*len(es)/6
+	plain, stride, torn := 0, 1+3*len(es)/6, 0
 	rec.Start(w.dir, func(ev *crashfs.Event) {
 		cl := classify(ev, prev)
 		cp := *ev
@@ -394,6 +399,15 @@ func (w *world) crashSave(op *Op, hs *raftpb.HardState, es []raftpb.Entry, sn *r
 		d := filepath.Join(imgRoot, fmt.Sprintf("s%d", ev.Seq))
 		if crashfs.CopyTree(w.dir, d) == nil {
 			images = append(images, image{dir: d, seq: ev.Seq, class: cl})
+		}
+		// a write that spans several pages can be cut at a page boundary by the death of the process
+		if k := tornPrefix(ev); k > 0 && torn < 6 && !big {
+			dt := filepath.Join(imgRoot, fmt.Sprintf("t%d", ev.Seq))
+			if crashfs.CopyTree(w.dir, dt) == nil && crashfs.ApplyTorn(w.dir, dt, ev, k) == nil {
+				images = append(images, image{dir: dt, seq: ev.Seq, class: "torn-" + cl})
+				torn++
+				w.c.Stats["torn_images"]++
+			}
 		}
 	}, nil)
 	err := w.ds.Save(hs, es, sn)
@@ -489,4 +503,204 @@ func (w *world) faultSave(op *Op, hs *raftpb.HardState, es []raftpb.Entry, sn *r
 		return err2
 	}
 	return nil
+}
+
+// ---- crash points and faults inside DeleteBefore, CreateSnapshot and Init ----
+
+// imagesDuring runs f with a copy of the directory before every file-system step (at most 24) and - for write steps
+// that span more than one page - one more copy in which only the pages before the last page boundary inside the
+// write have arrived (a large write interrupted by the death of the process). Every copy is checked with c.
+func (w *world) imagesDuring(c *saveCtx, what string, f func() error) error {
+	imgRoot := filepath.Join(workDir(), fmt.Sprintf("img%d", w.c.Case))
+	_ = os.RemoveAll(imgRoot)
+	var images []image
+	var prev *crashfs.Event
+	rec.Start(w.dir, func(ev *crashfs.Event) {
+		cl := classify(ev, prev)
+		cp := *ev
+		prev = &cp
+		w.c.Stats["step:"+cl]++
+		w.c.Stats["crash_steps"]++
+		if len(images) >= 24 || treeSize(w.dir) > 40<<20 {
+			return
+		}
+		d := filepath.Join(imgRoot, fmt.Sprintf("s%d", ev.Seq))
+		if crashfs.CopyTree(w.dir, d) == nil {
+			images = append(images, image{dir: d, seq: ev.Seq, class: cl})
+		}
+		if k := tornPrefix(ev); k > 0 {
+			dt := filepath.Join(imgRoot, fmt.Sprintf("t%d", ev.Seq))
+			if crashfs.CopyTree(w.dir, dt) == nil && crashfs.ApplyTorn(w.dir, dt, ev, k) == nil {
+				images = append(images, image{dir: dt, seq: ev.Seq, class: "torn-" + cl})
+				w.c.Stats["torn_images"]++
+			}
+		}
+	}, nil)
+	err := f()
+	rec.Stop()
+	w.c.Stats["crash_images"] += len(images)
+	for _, im := range images {
+		w.checkImage(im, c, what)
+	}
+	_ = os.RemoveAll(imgRoot)
+	return err
+}
+
+const pageSize = 4096
+
+// tornPrefix: the length of the longest proper prefix of a write that ends on a page boundary of the file (0: the write
+// lies inside one page - such a write is not interrupted by the death of the process).
+func tornPrefix(ev *crashfs.Event) int {
+	if ev.Kind != "write" || ev.Off < 0 || len(ev.Data) == 0 {
+		return 0
+	}
+	end := ev.Off + int64(len(ev.Data))
+	cut := (end - 1) / pageSize * pageSize // last page boundary strictly inside (Off, end)
+	if cut <= ev.Off {
+		return 0
+	}
+	return int(cut - ev.Off)
+}
+
+// failStep runs f while file-system step number `step` fails; returns f's result and the class of the failed step
+// ("" = f has fewer steps).
+func (w *world) failStep(step uint64, f func() error) (error, string) {
+	var prev *crashfs.Event
+	hit := ""
+	rec.Start(w.dir, func(ev *crashfs.Event) {
+		cl := classify(ev, prev)
+		cp := *ev
+		prev = &cp
+		if uint64(ev.Seq) == step && cl != "meta-snapindex" && cl != "meta-snapterm" {
+			failNext = true
+			hit = cl
+		}
+	}, nil)
+	err := f()
+	rec.Stop()
+	failNext = false
+	if hit != "" {
+		w.c.Stats["fault:"+hit]++
+	}
+	return err, hit
+}
+
+func (w *world) plainCtx() *saveCtx {
+	c := &saveCtx{oldHS: w.hs, newHS: w.hs, oldSnap: snapD(w.snap), newSnap: snapD(w.snap)}
+	f, l := msFirstLast(w.ms)
+	c.oldFirst = f
+	if f <= l {
+		c.old, _ = w.ms.Entries(f, l+1, ^uint64(0))
+	}
+	return c
+}
+
+// delOp: DeleteBefore with crash images before every step (cdel) or with one failing step (fdel).
+func (w *world) delOp(op *Op) error {
+	c := w.plainCtx()
+	c.delUpTo = op.I
+	if op.K == "cdel" {
+		return w.imagesDuring(c, "process killed inside DeleteBefore", func() error { return w.ds.DeleteBefore(op.I) })
+	}
+	err, hit := w.failStep(op.Step, func() error { return w.ds.DeleteBefore(op.I) })
+	if hit == "" {
+		return err
+	}
+	if err == nil {
+		w.c.Stats["fault-unreported:"+hit]++
+		w.c.UnrepDB = append(w.c.UnrepDB, len(w.c.Outs))
+	}
+	// whatever was reported: the directory as it is now must open and hold the acknowledged log without a hole
+	imgRoot := filepath.Join(workDir(), fmt.Sprintf("img%d", w.c.Case))
+	_ = os.RemoveAll(imgRoot)
+	im := image{dir: filepath.Join(imgRoot, "f"), seq: int(op.Step), class: "delfault-" + hit}
+	if crashfs.CopyTree(w.dir, im.dir) == nil {
+		w.checkImage(im, c, "a removal failed inside DeleteBefore; process killed afterwards")
+	}
+	_ = os.RemoveAll(imgRoot)
+	if err != nil {
+		// reported: the caller (a later ClearEntryLog proposal) asks again
+		if err2 := w.ds.DeleteBefore(op.I); err2 != nil {
+			w.fail("crash:retry:retry", "DeleteBefore(%d) after a reported removal failure fails too: %v", op.I, err2)
+			return err2
+		}
+		return nil
+	}
+	return err
+}
+
+// uncompact: after a DeleteBefore whose failed removal was not reported, a reopened store may serve a prefix again that it
+// had dropped from memory (the file is still there). The entries are the right ones, so the reference follows - only
+// in such runs; everywhere else a first index that moves back is a failure.
+func (w *world) uncompact() bool {
+	if len(w.c.UnrepDB) == 0 {
+		return false
+	}
+	f, _ := w.ds.FirstIndex()
+	mf, ml := msFirstLast(w.ms)
+	ff, _ := msFirstLast(w.full)
+	if f >= mf || f < ff || mf > ml+1 {
+		return false
+	}
+	es, err := w.full.Entries(f, ml+1, ^uint64(0))
+	if err != nil {
+		return false
+	}
+	ms := raft.NewMemoryStorage()
+	if f > 1 {
+		t, _ := w.full.Term(f - 1)
+		_ = ms.ApplySnapshot(raftpb.Snapshot{Metadata: raftpb.SnapshotMetadata{Index: f - 1, Term: t}})
+	}
+	_ = ms.Append(es)
+	w.ms = ms
+	w.c.Stats["uncompacted"]++
+	return true
+}
+
+// metaOp: CreateSnapshot with crash images (ccsnap) or one failing step (fcsnap). valid = the index is in the log.
+func (w *world) metaOp(op *Op, ns *raftpb.Snapshot, valid bool, f func() error) error {
+	c := w.plainCtx()
+	if valid && raftlog.IsValidSnapshot(*ns) {
+		c.newSnap = snapD(*ns)
+	}
+	if op.K == "ccsnap" {
+		return w.imagesDuring(c, "process killed inside CreateSnapshot", f)
+	}
+	err, hit := w.failStep(op.Step, f)
+	if hit == "" || err == nil {
+		return err
+	}
+	if code, msg := checkInside(view(w.ds), c); msg != "" {
+		w.fail("crash:fault-"+hit+":"+code, "CreateSnapshot failed at step %d (%s); live store: %s", op.Step, hit, msg)
+	}
+	imgRoot := filepath.Join(workDir(), fmt.Sprintf("img%d", w.c.Case))
+	_ = os.RemoveAll(imgRoot)
+	im := image{dir: filepath.Join(imgRoot, "f"), seq: int(op.Step), class: "fault-" + hit}
+	if crashfs.CopyTree(w.dir, im.dir) == nil {
+		w.checkImage(im, c, "CreateSnapshot failed, process killed")
+	}
+	_ = os.RemoveAll(imgRoot)
+	// RaftNode.snapShot retries until CreateSnapshot succeeds
+	if err2 := f(); err2 != nil {
+		w.fail("crash:retry:retry", "retry after a failed CreateSnapshot (step %d, %s) fails too: %v", op.Step, hit, err2)
+		return err2
+	}
+	return nil
+}
+
+// initWithFault: the store is closed; Init runs with one failing file-system step. If it reports an error the caller
+// opens the directory again (a restart), which must succeed and find the acknowledged state.
+func (w *world) initWithFault(op *Op) {
+	var ds *raftlog.RaftDiskStorage
+	err, hit := w.failStep(op.Step, func() error {
+		var e error
+		ds, e = raftlog.Init(w.dir, 0)
+		return e
+	})
+	if hit != "" && err == nil {
+		w.c.Stats["fault-unreported:"+hit]++
+	}
+	if ds != nil {
+		_ = ds.Close()
+	}
 }
